@@ -303,9 +303,14 @@ def gen_turn_case(rng):
         if t > 0 and rng.random() < 0.5:
             # budgets tightened / loosened between turns of one history (same world, warm stage caches)
             ov = {k: rng.choice([None, 0, 1, 2, 3, 1000]) for k in rng.sample(["t1_pops", "t1_iters", "t2_k", "t3_ops"], rng.randint(1, 3))}
+        same = False
+        if t > 0 and rng.random() < 0.3:
+            same = True  # exactly the previous request again (same agent, text, logical time): cache-served stages
         if t > 0 and rng.random() < 0.5:
             txt = turns[-1]["text"].rsplit(" t", 1)[0]  # ask the same thing again
         turns.append({"agent": rng.choice(["A", "B"]), "text": txt + f" t{t}", "pc_step": step if jump is None else 0.0, "pc_jump": jump, "plan": plan, "budgets": ov})
+        if same:
+            turns[-1]["agent"], turns[-1]["text"] = turns[-2]["agent"], turns[-2]["text"]
     return {"world": world, "cfg": cfg, "turns": turns}
 
 
@@ -426,6 +431,17 @@ def check_turn_case(case, sess: Session):
             t3_on = True
             expected_stages = ["T1", "T2"] + (["T3"] if t3_on else []) + (["T4", "Apply"] if env.cfg["t4"].get("enabled", True) else [])
             yielded_at = None
+            # the consumption reported at a stage boundary is the work that stage did (as its own record says), also when
+            # the stage result was served from a cache
+            if decisions and (decisions[0][1].get("t1_pops") != t1r.get("pops") or decisions[0][1].get("t1_iters") != t1r.get("iters")):
+                sess.violation("yield:consumed-at-T1-boundary-differs-from-the-stage-record", tcase, {"consumed": decisions[0][1], "t1": {k: t1r.get(k) for k in ("pops", "iters")}})
+            if len(decisions) >= 2 and new["t2.jsonl"]:
+                sess.count("t2_boundary_consumption_checked")
+                if new["t2.jsonl"][0].get("cache_hit") is True:
+                    sess.count("t2_boundary_consumption_checked(cache-served)")
+                if decisions[1][1].get("t2_k") != new["t2.jsonl"][0].get("k_used"):
+                    sess.violation("yield:consumed-at-T2-boundary-differs-from-the-stage-record", tcase, {"consumed": decisions[1][1], "k_used": new["t2.jsonl"][0].get("k_used"),
+                                                                                                        "cache_hit": new["t2.jsonl"][0].get("cache_hit")})
             for i, (bud, cons, res) in enumerate(decisions):
                 exp = table_oracle(bud, cons)
                 if exp != res:
